@@ -2,9 +2,11 @@ package harness
 
 import (
 	"encoding/hex"
+	"encoding/json"
 	"flag"
 	"fmt"
 	"os"
+	"os/exec"
 	"path/filepath"
 	"sort"
 	"strconv"
@@ -40,6 +42,7 @@ type RunSpec struct {
 	StashPrev    bool              `json:"stashPrev,omitempty"`    // move the file saved by the previous run out of testdata (to ./stash) first
 	FailfileRun  int               `json:"failfileRun,omitempty"`  // -rapid.failfile=<file saved by run k> (after stashing, its new place)
 	FuzzFrom     []string          `json:"fuzzFrom,omitempty"`     // extra fuzz inputs: "recorded" / "pruned" words of the last recording made in an earlier run
+	FreshProc    bool              `json:"freshProc,omitempty"`    // execute this run in a new process (its events are spliced into the trace)
 	FailfileFuzz int               `json:"failfileFuzz,omitempty"` // write a fail file holding the words of fuzz input j (decoded by the harness) and pass it with -rapid.failfile
 }
 
@@ -218,16 +221,20 @@ func seedSchedule(base uint64, n int) []uint64 {
 // RunScenario executes one scenario against the real library and records it.
 func RunScenario(t *testing.T, rec *Recorder, sc *Scenario) {
 	orig, _ := os.Getwd()
-	dir, err := os.MkdirTemp(*fWork, "verif-scen-")
-	if err != nil {
-		t.Fatal(err)
+	dir := orig
+	if !*fInplace { // (a spliced-in run of another process works in that process's scenario directory)
+		var err error
+		dir, err = os.MkdirTemp(*fWork, "verif-scen-")
+		if err != nil {
+			t.Fatal(err)
+		}
+		defer func() {
+			_ = os.Chdir(orig)
+			_ = os.RemoveAll(dir)
+		}()
+		_ = os.Chdir(dir)
 	}
-	defer func() {
-		_ = os.Chdir(orig)
-		_ = os.RemoveAll(dir)
-		setFlags()
-	}()
-	_ = os.Chdir(dir)
+	defer setFlags()
 
 	name := sc.Name
 	if name == "" {
@@ -272,6 +279,10 @@ func RunScenario(t *testing.T, rec *Recorder, sc *Scenario) {
 			_ = os.Chdir(d2)
 		}
 		writeFiles(run.Files)
+		if run.FreshProc {
+			runInFreshProcess(rec, sc, run, i)
+			continue
+		}
 		extra := map[string]string{}
 		if run.SeedPrev && prevSeed != "" {
 			extra["rapid.seed"] = prevSeed
@@ -559,4 +570,55 @@ func normJSON(v any) any {
 		return out
 	}
 	return v
+}
+
+// runInFreshProcess executes one run of a scenario in a new process of the same binary (same working
+// directory) and splices the events it records into this trace, renumbering the run.
+func runInFreshProcess(rec *Recorder, sc *Scenario, run *RunSpec, idx int) {
+	one := *sc
+	r2 := *run
+	r2.FreshProc = false
+	one.Runs = []RunSpec{r2}
+	wd, _ := os.Getwd()
+	in, _ := os.CreateTemp(wd, "fresh-*.in")
+	b, _ := json.Marshal(one)
+	_, _ = in.Write(b)
+	_ = in.Close()
+	out := in.Name() + ".out"
+	args := []string{"-test.run", "^TestVerif$", "-test.timeout", "0", "-verif.in", in.Name(), "-verif.out", out, "-verif.inplace"}
+	if *fEvents != "" {
+		args = append(args, "-verif.events", *fEvents)
+	}
+	cmd := exec.Command(os.Args[0], args...)
+	cmd.Dir = wd
+	_ = cmd.Run()
+	data, err := os.ReadFile(out)
+	_ = os.Remove(in.Name())
+	_ = os.Remove(out)
+	if err != nil {
+		rec.Emit("harness.error", F{"msg": "fresh process produced no trace"})
+		return
+	}
+	for _, line := range strings.Split(string(data), "\n") {
+		if strings.TrimSpace(line) == "" {
+			continue
+		}
+		var ev map[string]any
+		if json.Unmarshal([]byte(line), &ev) != nil {
+			continue
+		}
+		name, _ := ev["ev"].(string)
+		if name == "scen.begin" || name == "scen.end" || name == "harness.done" {
+			continue
+		}
+		delete(ev, "ev")
+		delete(ev, "seq")
+		if _, ok := ev["run"]; ok && (name == "run.begin" || name == "run.end" || name == "fs" || name == "fuzz.begin" || name == "fuzz.end") {
+			ev["run"] = idx + 1
+		}
+		if name == "run.begin" {
+			ev["expect"], ev["expectRun"], ev["freshProc"] = run.Expect, run.ExpectRun, true
+		}
+		rec.EmitRaw(name, normJSON(ev).(F))
+	}
 }
